@@ -71,6 +71,19 @@ class CtxObj:
         self._do(tok, None, False)
         return tok
 
+    def items(self, tok, n, pause=0):
+        """item stream: the generator's body runs inside later get_next_stream_item requests (on the daemon's own object)
+        and records the context it sees there, under the name of the fetch it believes it is serving"""
+        self._do(tok, None, False)
+
+        def gen():
+            for i in range(n):
+                if pause:
+                    self._s.sleep(pause)
+                self._do("%s.i%d" % (tok, i), None, False)
+                yield i
+        return gen()
+
     @property
     def prop(self):
         self._do("prop@%d" % len(self._snaps), None, False)
@@ -97,9 +110,9 @@ class CtxWorld(World):
             "time (virtual clock)", "uuid4 (seeded)"]
     PROBES = ["raise_after_set", "oneway_mutate", "worker_reuse", "handshake_after_raise", "batch", "ping", "prop",
               "assign_idiom", "mutate_idiom", "multiplex", "thread", "preempted", "pool_full_retry", "oneway_delayed", "reply_reset_then_reconnect", "bad_handshake", "peer_address_unavailable", "reset_after_oneway_request",
-              "daemon_annotations_hook"]
+              "daemon_annotations_hook", "stream_item_context"]
     RULE = ("plan = (server type, pool size 1-2, serializer, 2-3 clients x 1-2 sessions x 1-5 calls of kinds "
-            "ret/boom/ow/plain/batch/prop/ping, each with a unique annotation key set by assignment or mutation, "
+            "ret/boom/ow/plain/batch/prop/ping/stream (an item stream whose generator body records the context during every fetch), each with a unique annotation key set by assignment or mutation, "
             "pre-emption probabilities); distinct = distinct interleaving digest; non-trivial = at least two clients' "
             "calls were served and at least one method set a response annotation")
     ASSUMPTIONS = ["30% of the plans override Daemon.annotations() (returning one fixed key from a dict the daemon keeps, or from a "
@@ -119,12 +132,12 @@ class CtxWorld(World):
 
         def call():
             kn[0] += 1
-            k = rng.choice(["ret", "ret", "boom", "boom", "ow", "plain", "batch", "prop", "ping"])
+            k = rng.choice(["ret", "ret", "boom", "boom", "ow", "plain", "batch", "prop", "ping", "stream"])
             return {"kind": k, "key": "K%03d" % kn[0], "mutate": rng.random() < 0.5, "pause": rng.choice([0, 0, 0.01]),
                     "ow_delay": rng.choice([0, 0, 0.005, 0.02]), "work": rng.choice([0, 0, 0.01, 0.04]),
                     "reset_reply": k in ("ret", "boom", "plain") and rng.random() < 0.12,
                     "reset_after_request": k == "ow" and rng.random() < 0.25,
-                    "pad": rng.choice([0, 0, 300, 700, 5000])}
+                    "pad": rng.choice([0, 0, 300, 700, 5000]), "n": rng.randint(1, 3)}
 
         clients = []
         for _ in range(nclients):
@@ -309,6 +322,29 @@ class CtxWorld(World):
                             b.ret(tok, c["key"], c["mutate"])
                             b.plain(tok)
                             list(b())
+                        elif kind == "stream":
+                            n = c.get("n", 2)
+                            it = p.items(tok, n, c.get("work", 0) / 4.0)
+                            for i in range(n):
+                                # every fetch is a request of its own (to the daemon's object) with its own annotations
+                                ftok = "%s.i%d" % (tok, i)
+                                cctx.annotations = {"REQA": ftok.encode()}
+                                cctx.correlation_id = new_corr() if cspec["corr"] else None
+                                frec = {"kind": "item", "key": None, "mutate": False, "conn": conn, "corr": cctx.correlation_id,
+                                        "laddr": p._pyroLocalSocket, "outcome": "ok"}
+                                if c["pause"]:
+                                    sched.sleep(c["pause"])      # other clients' requests are served in between
+                                try:
+                                    next(it)
+                                except E.CommunicationError as x:
+                                    frec["outcome"] = "comm:%s" % type(x).__name__
+                                frec["seq"] = p._pyroSeq
+                                frec["seen"] = {k: bytes(v) for k, v in cctx.response_annotations.items()}
+                                ops[ftok] = frec
+                                ctx.probe("stream_item_context")
+                            cctx.annotations = {"REQA": (tok + ".close").encode()}
+                            it.close()
+                            cctx.annotations = {"REQA": tok.encode()}
                         elif kind == "ow":
                             p.ow(tok, c["key"], c["mutate"], c.get("ow_delay", 0), pad)
                             if c.get("reset_after_request"):
